@@ -108,8 +108,8 @@ def parse_output(out):
         m = re.search(r'Verification Time: ([0-9.]+)s', txt)
         if m:
             r.time_s = float(m.group(1))
-        fc = re.findall(r'Failed Checks: (.*)\n File: (.*)', txt)
-        r.failed_checks = [(a.strip(), b.strip()) for a, b in fc]
+        fc = re.findall(r'Failed Checks: (.*?)\n File: ([^\n]*)', txt, re.S)
+        r.failed_checks = [(re.sub(r'\s+', ' ', a).strip(), b.strip()) for a, b in fc]
         if 'VERIFICATION:- SUCCESSFUL' in txt:
             r.status = 'success'
             r.expected_panic = 'panics as expected' in txt
@@ -192,6 +192,8 @@ def run_playback_print(scratch_path, crate, harness, timeout, log=None):
     if log:
         with open(log, 'w') as f:
             f.write('$ ' + ' '.join(cmd) + '\n' + out)
-    m = re.search(r'```\n(.*?)```', out, re.S)
-    test = m.group(1) if m else None
+    tests = re.findall(r'```\n(.*?)```', out, re.S)
+    # cover properties get playback tests too; we want the one for a failed check
+    failing = [t for t in tests if 'Check for `cover`' not in t]
+    test = failing[0] if failing else None
     return test, out
